@@ -232,8 +232,10 @@ fn run_slicehist(r: &mut Rng, n: u64) {
     }
 }
 fn run_lines(r: &mut Rng, n: u64) {
-    let al = ['a', '\u{e9}', '\u{1F44C}', '\n', '\r', 'b'];
-    for i in 0..n { let len = r.below(10); let text: String = (0..len).map(|_| al[r.below(6) as usize]).collect(); let k = 1 + r.below(5); let reqs: Vec<i64> = (0..k).map(|_| match r.below(13) { 0 => -2, 1 => u32::MAX as i64, 2 => 1000, 12 => -3, _ => r.below(8) as i64 - 1 }).collect(); lines_case(&format!("r{}", i), &text, &reqs); }
+    // only LF, CR and CRLF end a line: the other characters Unicode or ECMAScript call line terminators or white space (U+2028, U+2029, U+0085,
+    // vertical tab, form feed) are ordinary content
+    let al = ['a', '\u{e9}', '\u{1F44C}', '\n', '\r', 'b', '\n', '\r', '\u{2028}', '\u{2029}', '\u{85}', '\u{b}', '\u{c}', 'c'];
+    for i in 0..n { let len = r.below(10); let text: String = (0..len).map(|_| al[r.below(if i % 3 == 0 { 14 } else { 8 }) as usize]).collect(); let k = 1 + r.below(5); let reqs: Vec<i64> = (0..k).map(|_| match r.below(13) { 0 => -2, 1 => u32::MAX as i64, 2 => 1000, 12 => -3, _ => r.below(8) as i64 - 1 }).collect(); lines_case(&format!("r{}", i), &text, &reqs); }
 }
 fn run_adjust(r: &mut Rng, n: u64) {
     let t = |dl, dc, sl, sc| Tok { dl, dc, sl, sc, src: 0, name: !0, range: false };
@@ -426,7 +428,11 @@ fn run_hdr(r: &mut Rng, n: u64) {
         br#"{"version":3,"sources":["a"],"names":[],"mappings":"AAAA","x_facebook_sources":[null]}"#, br#"{"file":"x"}"#, br#"[1,2]"#,
         // nothing after the header; a complete document followed by more (white space is fine, anything else is an error on every path)
         b"", br#"{"version":3,"sources":["a"],"names":[],"mappings":"AAAA"}x"#, b"{\"version\":3,\"sources\":[\"a\"],\"names\":[],\"mappings\":\"AAAA\"} \n }", b"{\"version\":3,\"sources\":[\"a\"],\"names\":[],\"mappings\":\"AAAA\"}\n\n  ",
-        br#"{"version":3,"sources":["a"],"names":[],"mappings":"AAAA"}{"version":3}"#];
+        br#"{"version":3,"sources":["a"],"names":[],"mappings":"AAAA"}{"version":3}"#,
+        // something in front of the document (after the header, if there is one): JSON white space is fine, other "white space" (form feed,
+        // vertical tab, NUL, no-break space) is not -- on every path alike
+        b"\x0c{\"version\":3,\"sources\":[\"a\"],\"names\":[],\"mappings\":\"AAAA\"}", b" \t\r\n{\"version\":3,\"sources\":[\"a\"],\"names\":[],\"mappings\":\"AAAA\"}",
+        b"\x0b{\"version\":3,\"sources\":[\"a\"],\"names\":[],\"mappings\":\"AAAA\"}", b"\x00{\"version\":3,\"sources\":[\"a\"],\"names\":[],\"mappings\":\"AAAA\"}", b"\xc2\xa0{\"version\":3,\"sources\":[\"a\"],\"names\":[],\"mappings\":\"AAAA\"}"];
     let headers: Vec<&[u8]> = vec![b"", b")]}'\n", b")]}'\r\n", b")]}'\r", b")]}'", b")\n", b"]\r\r\n", b"}garbage)]}\n", b"'\n\n", b")]}\rx\n", b"x)]}\n", b")\r\n\r\n", b")]}'\r\r\n", b"'\r", b"]\n\r\n", b"}{\n",
         b")]}'\r)]}'\n", b")\r]\n", b"]\r}\r\n", b"'\r'\r'\n", b")\r\r", b"}\r)",
         b")]}'\n)]}'\n", b")\n]\r\n", b"'\r\n'\n'\n", b")]}'\n \n", b"\n", b" \n", b"\n)]}'\n",
@@ -467,8 +473,12 @@ fn gen_sections(r: &mut Rng, depth: usize, level: usize) -> (Vec<sourcemap::Sour
             (sourcemap::DecodedMap::Index(sourcemap::SourceMapIndex::new(None, inner)), format!("I[{}]", d), ext)
         } else { let sm = gen_map(r, false); let d = format!("R{}", map_in(&sm)); (sourcemap::DecodedMap::Regular(sm), d, 20) };   // tokens of gen_map stay below line 20
         descr.push(format!("{}:{}@{}", off.0, off.1, d));
+        // where this section's last mapping sits in the whole file (None for nested indexes and for maps with far-out columns)
+        let last_abs: Option<(u32, u32)> = match &dm { sourcemap::DecodedMap::Regular(sm) => sm.tokens().map(|t| { let (l, c) = t.get_dst(); (off.0 as u64 + l as u64, if l == 0 { off.1 as u64 + c as u64 } else { c as u64 }) }).max().filter(|(l, c)| *l < 100_000 && *c < 1000).map(|(l, c)| (l as u32, c as u32)), _ => None };
         secs.push(sourcemap::SourceMapSection::new(off, None, Some(dm)));
-        off = (off.0 + extent + r.below(3) as u32, r.below(5) as u32);
+        // usually the next section starts on a fresh line well behind this one; sometimes it starts mid-line right behind this section's last
+        // mapping (the sections of a bundle that was concatenated without line breaks)
+        off = match last_abs { Some((l, c)) if r.below(3) == 0 => (l, c + 1 + r.below(3) as u32), _ => (off.0 + extent + r.below(3) as u32, r.below(5) as u32) };
     }
     (secs, descr.join(&delim.to_string()), off.0 + 1)
 }
@@ -500,8 +510,9 @@ fn run_fname_gen(r: &mut Rng, n: u64, any_col: bool) {
             outln!("w{}_{}\tfname\t{}\t{}\t{}\t{}\t{}", d, two_lines as u8, hex(text.as_bytes()), toks_str(&sorted), ti, hex(b"n"), out);
         } }
     }
-    let words = ["function", "a", "ab", "\u{e9}", "a\u{e9}", "\u{1D49C}x", "$", "_1", "x\u{200d}y", "(", ")", "{", "}", "\u{1F44C}", "1", " ", "\t", "\u{a0}", ";", "function", "function", "function", "var", ","];
-    let cands = ["a", "ab", "\u{e9}", "a\u{e9}", "function", "\u{1D49C}x", "x\u{200d}y", "1a", "a b", "", "_1", "$"];
+    let words = ["function", "a", "ab", "\u{e9}", "a\u{e9}", "\u{1D49C}x", "$", "_1", "x\u{200d}y", "(", ")", "{", "}", "\u{1F44C}", "1", " ", "\t", "\u{a0}", ";", "function", "function", "function", "var", ",",
+        "a\u{301}", "ab\u{661}", "a\u{203f}b", "a\u{b7}b", "\u{301}", "\u{b7}"];
+    let cands = ["a", "ab", "\u{e9}", "a\u{e9}", "function", "\u{1D49C}x", "x\u{200d}y", "1a", "a b", "", "_1", "$", "a\u{301}", "ab\u{661}", "a\u{203f}b", "a\u{b7}b", "\u{301}a"];
     for i in 0..n {
         let long = i % 10 == 0;
         let nlines = 1 + r.below(3); let mut lines: Vec<String> = vec![]; let mut toks: Vec<Tok> = vec![]; let mut wordat: Vec<(u32, u32, String)> = vec![];
@@ -573,7 +584,7 @@ fn own_vlq(mut n: i64, out: &mut String) {
     loop { let mut d = (v & 31) as usize; v >>= 5; if v != 0 { d |= 32; } out.push(A[d] as char); if v == 0 { break; } }
 }
 fn run_decode(r: &mut Rng, n: u64, with_faults: bool) {
-    let spool = ["a.js", "b.js", "", "/abs/c.js", "http://x/d.js", "q/\u{e9}.js"];
+    let spool = ["a.js", "b.js", "", "/abs/c.js", "http://x/d.js", "q/\u{e9}.js", "http:h.js", "https:/d.js", "https:", "http", "src/\u{e9}.js", "\u{65e5}\u{672c}\u{8a9e}.js", "//x/y.js", "HTTP://x/d.js"];
     for i in 0..n {
         // explicit first cases of the faulted stream: every foreign character of the list at every offset of a valid segment
         const FOREIGN: [char; 21] = ['!', ' ', '=', '-', '_', '\u{e9}', '\u{7f}', '\u{0}', '"', '\\', '\u{141}', '\u{143}', '\u{4e2b}', '\u{1f441}', '\u{ff21}', '\u{80}', '\u{c1}', '\u{f0}', '\u{eb}', '\u{f5}', '\u{ef}'];
@@ -736,8 +747,13 @@ fn run_hermes(r: &mut Rng, n: u64) {
             toks.push(Tok { dl: 0, dc: (r.below(12) * 3) as u32, sl, sc: r.below(8) as u32, src: if r.below(8) == 0 { !0 } else { r.below(nsrc as u64) as u32 }, name: !0, range: r.below(5) == 0 });
         }
         toks.sort_by_key(|t| (t.dl, t.dc));
+        // sometimes the last source is an unreferenced second copy of the first one's NAME, with a function map of its own: the copy that the
+        // tokens use decides what they resolve to, before and after rewrite (two referenced copies with different function maps would be ambiguous)
+        let dup = nsrc >= 2 && r.below(4) == 0;
+        if dup { for t in toks.iter_mut() { if t.src == (nsrc - 1) as u32 { t.src = 0; } } }
         let sm = build_map(nsrc as u32, 0, &toks);
         let mut doc: serde_json::Value = { let mut out = vec![]; sm.to_writer(&mut out).unwrap(); serde_json::from_slice(&out).unwrap() };
+        if dup { let a = doc["sources"][0].clone(); let last = nsrc - 1; doc["sources"][last] = a; }
         // function maps: abstract entries (line 1-based, column, name index), strictly increasing unless `messy`
         let nfb = match r.below(6) { 0 => nsrc + 1, 1 => nsrc.saturating_sub(1), _ => nsrc };
         let mut fb_json = vec![]; let mut fb_descr = vec![]; let mut prev_entries: Option<Vec<(u32, u32, u32)>> = None;
@@ -755,7 +771,7 @@ fn run_hermes(r: &mut Rng, n: u64) {
                     for e in 0..r.below(7) {
                         if e > 0 || r.below(2) == 0 { if r.below(3) == 0 { l += 1 + r.below(2) as u32; c = r.below(4) as u32; } else { c += 1 + r.below(4) as u32; } }
                         if messy && r.below(2) == 0 { c = c.saturating_sub(2); }
-                        entries.push((l, c, if nnames == 0 { r.below(2) as u32 } else if r.below(8) == 0 { nnames as u32 + r.below(2) as u32 } else { r.below(nnames as u64) as u32 }));
+                        entries.push((l, c, if nnames == 0 { r.below(2) as u32 } else if r.below(8) == 0 { nnames as u32 + r.below(2) as u32 } else if r.below(14) == 0 { u32::MAX /* the running index dips to -1 */ } else { r.below(nnames as u64) as u32 }));
                     } }
                     if !messy { prev_entries = Some(entries.clone()); }
                     // own renderer: ';' between lines (line delta also written explicitly in field 3), ',' between segments
@@ -767,8 +783,9 @@ fn run_hermes(r: &mut Rng, n: u64) {
                         cur_line = el;
                         if !first { s.push(','); } first = false;
                         own_vlq(ec as i64 - pc, &mut s); pc = ec as i64;
-                        let dn = en as i64 - pn; let dl = el as i64 - pl;
-                        if dn != 0 || dl != 0 || r.below(2) == 0 { own_vlq(dn, &mut s); pn = en as i64; if dl != 0 || r.below(2) == 0 { own_vlq(dl, &mut s); pl = el as i64; } }
+                        let en_i = if en == u32::MAX { -1 } else { en as i64 };      // an index of -1 is written as such; as a u32 it is 4294967295: out of range
+                        let dn = en_i - pn; let dl = el as i64 - pl;
+                        if dn != 0 || dl != 0 || r.below(2) == 0 { own_vlq(dn, &mut s); pn = en_i; if dl != 0 || r.below(2) == 0 { own_vlq(dl, &mut s); pl = el as i64; } }
                     }
                     // an unparsable string: a foreign byte, or a value cut off after some complete values of the same segment
                     let garbage = k == 2 && r.below(2) == 0; if garbage { s.push_str([",!", ",AAg", ",CDg", "g", ",AAA!", ";AAAAAAg", ",AAAAAAA"][r.below(6) as usize]); }
@@ -790,14 +807,18 @@ fn run_hermes(r: &mut Rng, n: u64) {
                 let per_tok: Vec<String> = (0..h.get_token_count()).map(|k| match catch_unwind(AssertUnwindSafe(|| h.get_scope_for_token(h.get_token(k as usize).unwrap()).map(|s| s.to_string()))) { Ok(x) => opt_hex(x.as_deref()), Err(_) => "panic".into() }).collect();
                 let per_off: Vec<String> = offsets.iter().map(|&o| match catch_unwind(AssertUnwindSafe(|| h.get_original_function_name(o).map(|s| s.to_string()))) { Ok(x) => opt_hex(x.as_deref()), Err(_) => "panic".into() }).collect();
                 // C09: after rewriting, every token still resolves to the same enclosing function
-                let after: Vec<String> = match catch_unwind(AssertUnwindSafe(|| h.clone().rewrite(&sourcemap::RewriteOptions::default()))) {
-                    Ok(Ok(h2)) => (0..h2.get_token_count()).map(|k| match catch_unwind(AssertUnwindSafe(|| h2.get_scope_for_token(h2.get_token(k as usize).unwrap()).map(|s| s.to_string()))) { Ok(x) => opt_hex(x.as_deref()), Err(_) => "panic".into() }).collect(),
-                    Ok(Err(_)) => vec!["err".into()], Err(_) => vec!["panic".into()] };
+                let scopes_of = |hh: &sourcemap::SourceMapHermes| -> Vec<String> { (0..hh.get_token_count()).map(|k| match catch_unwind(AssertUnwindSafe(|| hh.get_scope_for_token(hh.get_token(k as usize).unwrap()).map(|s| s.to_string()))) { Ok(x) => opt_hex(x.as_deref()), Err(_) => "panic".into() }).collect() };
+                let rewritten = catch_unwind(AssertUnwindSafe(|| h.clone().rewrite(&sourcemap::RewriteOptions::default())));
+                let after: Vec<String> = match &rewritten { Ok(Ok(h2)) => scopes_of(h2), Ok(Err(_)) => vec!["err".into()], Err(_) => vec!["panic".into()] };
+                // ... and the rewritten map written and read again answers like the rewritten map (the raw payload travels with the renumbered sources)
+                let reser2: Vec<String> = match &rewritten { Ok(Ok(h2)) if h2.tokens().all(|t| t.get_dst_line() < 100_000) => match catch_unwind(AssertUnwindSafe(|| { let mut o = vec![]; h2.to_writer(&mut o).unwrap(); sourcemap::decode_slice(&o) })) {
+                        Ok(Ok(sourcemap::DecodedMap::Hermes(h4))) => { let v = scopes_of(&h4); if v.len() == after.len() { v } else { after.clone() } }     // the writer drops repeated tokens: then nothing to compare
+                        Ok(Ok(_)) => vec!["other-kind".into()], Ok(Err(_)) => vec!["err".into()], Err(_) => vec!["panic".into()] }, _ => after.clone() };
                 // C14, last sentence: the answers are unchanged by serialising and decoding the map again
                 let reser: Vec<String> = if h.tokens().all(|t| t.get_dst_line() < 100_000) { match catch_unwind(AssertUnwindSafe(|| { let mut o = vec![]; h.to_writer(&mut o).unwrap(); sourcemap::decode_slice(&o) })) {
                     Ok(Ok(sourcemap::DecodedMap::Hermes(h3))) => (0..h3.get_token_count()).map(|k| match catch_unwind(AssertUnwindSafe(|| h3.get_scope_for_token(h3.get_token(k as usize).unwrap()).map(|s| s.to_string()))) { Ok(x) => opt_hex(x.as_deref()), Err(_) => "panic".into() }).collect(),
                     Ok(Ok(_)) => vec!["other-kind".into()], Ok(Err(_)) => vec!["err".into()], Err(_) => vec!["panic".into()] } } else { per_tok.clone() };
-                format!("ok {}~{}~{}~{}", per_tok.join(","), per_off.join(","), after.join(","), reser.join(",")) }
+                format!("ok {}~{}~{}~{}~{}", per_tok.join(","), per_off.join(","), after.join(","), reser.join(","), reser2.join(",")) }
             Ok(Ok(_)) => "ok other-kind".into(), Ok(Err(e)) => format!("err {}", err_name(&e)), Err(_) => "panic".into() };
         outln!("r{}\thermes\t{}\t{}\t{}\t{}", i, descr, fb_descr.join("#"), offsets.iter().map(|x| x.to_string()).collect::<Vec<_>>().join(","), out);
     }
@@ -927,7 +948,7 @@ fn run_dataurl(r: &mut Rng, n: u64) {
 fn run_keys(r: &mut Rng, n: u64) {
     for i in 0..n {
         let mut sm = gen_map(r, false);
-        let dbg = r.below(3) == 0; if dbg { sm.set_debug_id(Some("00000000-0000-0000-0000-000000000001".parse().unwrap())); }
+        let dbg = r.below(3) == 0; if dbg { sm.set_debug_id(Some(["00000000-0000-0000-0000-000000000001", "00000000-0000-0000-0000-000000000000"][r.below(2) as usize].parse().unwrap())); }   // the nil id is an id like any other
         let mut out = vec![]; sm.to_writer(&mut out).unwrap();
         // key order as written: parse with serde_json's preserve_order-free API by scanning the top level
         let v: serde_json::Value = serde_json::from_slice(&out).unwrap();
@@ -1026,7 +1047,8 @@ fn gen_index(r: &mut Rng, depth: u32) -> sourcemap::SourceMapIndex {
             _ => Some(sourcemap::DecodedMap::Regular(gen_map(r, false))) };
         let url = if r.below(4) == 0 { Some("http://x/s.map".to_string()) } else { None };
         secs.push(sourcemap::SourceMapSection::new(off, url, inner));
-        off = (off.0 + 100 + r.below(3) as u32, r.below(5) as u32);
+        // mostly the next section starts later; sometimes at the very same offset (an empty module followed by the next one)
+        if r.below(5) != 0 { off = (off.0 + 100 + r.below(3) as u32, r.below(5) as u32); }
     }
     let file = if r.below(2) == 0 { Some("bundle.js".into()) } else { None };
     // the RAM-bundle extension fields travel with the index map (either, both or none)
@@ -1062,7 +1084,7 @@ fn run_roundtrip(r: &mut Rng, n: u64) {
             let dm: sourcemap::DecodedMap = match kind {
                 "regular" => { let mut sm = gen_map(r, false);
                     // debug ids with and without an appendix (the appendix is part of the id)
-                    if r.below(3) == 0 { sm.set_debug_id(Some(["00000000-0000-0000-0000-000000000007", "00000000-0000-0000-0000-000000000007-2a", "12345678-9abc-def0-1234-56789abcdef0-ffffffff"][r.below(3) as usize].parse().unwrap())); }
+                    if r.below(3) == 0 { sm.set_debug_id(Some(["00000000-0000-0000-0000-000000000007", "00000000-0000-0000-0000-000000000007-2a", "12345678-9abc-def0-1234-56789abcdef0-ffffffff", "00000000-0000-0000-0000-000000000000", "00000000-0000-0000-0000-000000000000-1"][r.below(5) as usize].parse().unwrap())); }
                     // the map is not necessarily fresh: a history of in-place edits precedes the round trip (C01 speaks of every map, however it was reached)
                     if r.below(3) == 0 { edit_history(&mut sm, r); }
                     if r.below(8) == 0 { sm = sm.rewrite(&sourcemap::RewriteOptions::default()).unwrap(); }
@@ -1297,7 +1319,11 @@ fn run_api(r: &mut Rng, n: u64, group: &str) {
 // ---- C04: tokens are ordered whatever the construction order ----
 fn run_order(r: &mut Rng, n: u64) {
     for i in 0..n {
-        let toks = gen_toks(r, 2, 2, if i % 7 == 0 { 60 } else { 9 }, false);      // construction order: unsorted
+        let mut toks = gen_toks(r, 2, 2, if i % 7 == 0 { 60 } else { 9 }, false);      // construction order: unsorted
+        // the far corners of the key space next to each other: the last column of a line and the first column of the next line, the last line
+        if i % 4 == 0 { let l = r.below(3) as u32; let mk = |dl: u32, dc: u32, sl: u32| Tok { dl, dc, sl, sc: 0, src: 0, name: !0, range: false };
+            let extra = [mk(l + 1, 0, 1), mk(l, u32::MAX, 2), mk(l, u32::MAX - 1, 3), mk(u32::MAX, 0, 4), mk(u32::MAX, u32::MAX, 5), mk(l + 1, 1, 6)];
+            for k in 0..(2 + r.below(5)) { let e = extra[((k + i) % 6) as usize]; let at = r.below(toks.len() as u64 + 1) as usize; toks.insert(at, e); } }
         let raw: Vec<sourcemap::RawToken> = toks.iter().map(|t| sourcemap::RawToken { dst_line: t.dl, dst_col: t.dc, src_line: t.sl, src_col: t.sc, src_id: t.src, name_id: t.name, is_range: t.range }).collect();
         let out = match catch_unwind(AssertUnwindSafe(|| { let sm = sourcemap::SourceMap::new(None, raw, vec!["n0".into(), "n1".into()], vec!["a".into(), "b".into()], None);
             let via_new: Vec<Tok> = sm.tokens().map(|t| raw_of(&t)).collect();
